@@ -29,6 +29,12 @@ type Client interface {
 	ScopeEnd(e *Engine, st *State, n ast.Node) *State
 }
 
+// Splitter is an optional Client extension: after an assignment a state may be replaced by several
+// (case split on a callee's post-condition, e.g. "returns (non-nil, nil) or (nil, non-nil)").
+type Splitter interface {
+	SplitAssign(e *Engine, st *State, lhs []ast.Expr, rhs []ast.Expr, stmt ast.Stmt) []*State
+}
+
 // BaseClient is a no-op Client for embedding.
 type BaseClient struct{}
 
@@ -263,15 +269,30 @@ func (e *Engine) pruneScope(in []*State, n ast.Node) []*State {
 	lo, hi := n.Pos(), n.End()
 	in = e.hookEach(in, func(st *State) *State { return e.Client.ScopeEnd(e, st, n) })
 	out := make([]*State, 0, len(in))
+	loOff, hiOff := e.P.Fset.Position(lo).Offset, e.P.Fset.Position(hi).Offset
 	for _, st := range in {
-		out = append(out, st.kill(func(_ string, f *Fact) bool {
+		st = st.kill(func(_ string, f *Fact) bool {
 			for _, o := range f.ObjDeps {
 				if p := o.Pos(); p >= lo && p < hi {
 					return true
 				}
 			}
 			return false
-		}))
+		})
+		// client extras keyed by a variable of the ended scope ("...name#offset...") are forgotten too
+		var n *State
+		for k := range st.ext {
+			if extMentionsScope(k, loOff, hiOff) {
+				if n == nil {
+					n = st.clone()
+				}
+				delete(n.ext, k)
+			}
+		}
+		if n != nil {
+			st = n
+		}
+		out = append(out, st)
 	}
 	return compact(out)
 }
@@ -1229,6 +1250,22 @@ func (e *Engine) setAlias(st *State, l ast.Expr, target *keyInfo) *State {
 }
 
 func (e *Engine) assign(lhs, rhs []ast.Expr, tok token.Token, stmt ast.Stmt, in []*State) []*State {
+	out := e.assign1(lhs, rhs, tok, stmt, in)
+	if sp, ok := e.Client.(Splitter); ok {
+		var res []*State
+		for _, st := range out {
+			if parts := sp.SplitAssign(e, st, lhs, rhs, stmt); parts != nil {
+				res = append(res, parts...)
+			} else {
+				res = append(res, st)
+			}
+		}
+		return res
+	}
+	return out
+}
+
+func (e *Engine) assign1(lhs, rhs []ast.Expr, tok token.Token, stmt ast.Stmt, in []*State) []*State {
 	for _, r := range rhs {
 		in = e.expr(r, in)
 	}
@@ -1871,3 +1908,55 @@ func (e *Engine) DropTags(st *State, prefix string) *State {
 	}
 	return n
 }
+
+// SetNil / SetNilness helpers for clients.
+func (e *Engine) SetNil(st *State, x ast.Expr) *State {
+	k := e.canon(st, x)
+	if !k.OK {
+		return st
+	}
+	return e.update(st, k, func(f *Fact) {
+		if f.Nil == 2 {
+			f.Nil = -1
+		} else {
+			f.Nil = 1
+		}
+	})
+}
+
+// SetNonNilStrict is SetNonNil that reports contradiction as nil.
+func (e *Engine) SetNonNilStrict(st *State, x ast.Expr) *State {
+	k := e.canon(st, x)
+	if !k.OK {
+		return st
+	}
+	return e.update(st, k, func(f *Fact) {
+		if f.Nil == 1 {
+			f.Nil = -1
+		} else {
+			f.Nil = 2
+		}
+	})
+}
+
+// extMentionsScope: the key embeds a local variable key "name#offset" whose declaration offset lies in [lo, hi).
+func extMentionsScope(k string, lo, hi int) bool {
+	for i := 0; i < len(k); i++ {
+		if k[i] != '#' {
+			continue
+		}
+		j := i + 1
+		n := 0
+		for j < len(k) && k[j] >= '0' && k[j] <= '9' {
+			n = n*10 + int(k[j]-'0')
+			j++
+		}
+		if j > i+1 && n >= lo && n < hi {
+			return true
+		}
+	}
+	return false
+}
+
+// AssumeBool strengthens st by "x == val" (nil if impossible).
+func (e *Engine) AssumeBool(st *State, x ast.Expr, val bool) *State { return e.assumeAtom(st, x, val) }
